@@ -349,6 +349,19 @@ func Run(c Case) *Result {
 			if alive {
 				commit(m, s.Pick, s.UpTo)
 			}
+		case "commitclose":
+			// CommitMessages is in progress (possibly in its retry back-off) when the reader is closed
+			if alive && len(m.fetched) > 0 {
+				done := make(chan struct{})
+				go func() { commit(m, s.Pick, s.UpTo); close(done) }()
+				time.Sleep(time.Duration(s.N) * time.Millisecond)
+				closeMember(m)
+				res.Closed[s.Member] = true
+				select {
+				case <-done:
+				case <-time.After(10 * time.Second):
+				}
+			}
 		case "append":
 			t := res.Topics[s.Topic%c.Topics]
 			appendRecords(t, s.Part%c.Partitions[s.Topic%c.Topics], s.N)
